@@ -194,16 +194,33 @@ func ZZVerifC20Read() {
 // ZZVerifC20Write: writing a flat map as JSON and reading it back returns the
 // same map, for every value over all byte values that are valid in a JSON
 // document (valid UTF-8: here ASCII incl. quote, backslash, control).
-func ZZVerifC20Write() {
-	v := nd.StringUpTo("v", nd.Param("V", 2))
+func ZZVerifC20Write() { zzWrite(nd.StringUpTo("v", nd.Param("V", 2)), 0, 0, "C20/write-end") }
+
+// ZZVerifC20WriteKeys: the same round trip for keys that need escaping (a
+// leaf key and the name of a nested object drawn from quote, backslash,
+// control character, slash), with a fixed value, through both writers.
+func ZZVerifC20WriteKeys() {
+	zzWrite("v\"", 1+nd.Choose("leaf-key", 4), 1+nd.Choose("section-key", 3), "C20/writekeys-end")
+}
+
+func zzWrite(v string, leafIdx, sectionIdx int, endLabel string) {
 	for i := 0; i < len(v); i++ {
 		nd.Assume(v[i] < 0x80)
 	}
-	m := map[string]string{"a": v}
-	if nd.Choose("two", 2) == 1 {
-		m["b.c"] = "x"
+	leaf := []string{"a", "\"", "\\", "\n", "/"}[leafIdx]
+	section := []string{"b", "q\"", "s\\", "t\t"}[sectionIdx]
+	m := map[string]string{leaf: v}
+	nested := nd.Choose("two", 2) == 1
+	if nested {
+		m[section+".c"] = "x"
 	}
-	js, err := PlainStringMapToJSON(m)
+	var js string
+	var err error
+	if nd.Bool("formatted-writer") {
+		js, err = PlainStringMapToFormattedJSON(m)
+	} else {
+		js, err = PlainStringMapToJSON(m)
+	}
 	nd.Assert(err == nil, "C20/write-no-error")
 	back, err := JSONToPlainStringMap([]byte(js))
 	nd.Assert(err == nil, "C20/write-output-parses")
@@ -211,7 +228,11 @@ func ZZVerifC20Write() {
 		return
 	}
 	nd.Assert(len(back) == len(m), "C20/write-read-size")
-	got, ok := back["a"]
+	got, ok := back[leaf]
 	nd.Assert(ok && got == v, "C20/write-read-identity")
-	nd.Reach("C20/write-end")
+	if nested {
+		got, ok = back[section+".c"]
+		nd.Assert(ok && got == "x", "C20/write-read-nested-identity")
+	}
+	nd.Reach(endLabel)
 }
